@@ -182,6 +182,16 @@ CHECKS = {
         text="refine and simplify, with and without assumptions, must return a tree whose value equals the value of e at every sampled assignment satisfying the assumptions (exactly at integer points of discontinuous functions, numerically 1e-6 away from jumps otherwise). Exploration.",
         note="KF-C35-03 ((x**-1)**b -> x**(-b) through pow(), same family as KF-C16-02) is a listed known finding.",
         variants=["main"]),
+    "C30": dict(
+        engine="hy", technique="property-based testing: polynomials of degree 0-4 built from chosen roots (rational, quadratic irrational, complex pairs, repeated, zero) and random coefficients in several input forms, rational equations with common factors, linear trigonometric equations, domains UniversalSet/Reals/Interval, and constructed non-singular linear systems; oracle = exact polynomial model (Sturm counts, reference roots) and 80-digit evaluation of the returned set interpreted semantically",
+        text="Every explicit member of the returned set must be a root (residual <= 1e-40 scale), inside the domain and not a pole; every reference root inside the domain must be a member (sets such as Intersection(Reals, FiniteSet) or ImageSet over the integers are interpreted, not declined); linsolve results must satisfy A x = b exactly. Exploration.",
+        note="ConditionSet answers and exceptions count as declined. KF-C30-03 (solve_trig through atan2's quadrant TODO) and KF-C30-04 (structural pole removal) are listed known findings.",
+        variants=["main"]),
+    "C31": dict(
+        engine="hy", technique="property-based testing: compositions (depth <= 3) of the series module's functions applied to polynomials, made analytic at 0 by construction; oracle = exact Fraction power-series recurrences (mpmath at 50/90 digits when constants occur), cross-checked per case against mpmath.taylor and a point evaluation",
+        text="The coefficients of degree < n returned by series(f, x, n) through get_coeff, as_dict and as_basic must equal the Taylor coefficients computed by an independent power-series model of the recipe; cases on which the check's own two references disagree are counted and not judged. Exploration.",
+        note="KF-C31-01 (intermediate truncation before division by x**k loses the top coefficients of removable quotients) is a listed known finding; while active only the coefficients a model of the truncation proves safe are judged.",
+        variants=["main"]),
 }
 
 NOT_APPLICABLE = {}
